@@ -729,7 +729,10 @@ func (l *lexer) lexHeredoc() action {
 					break Heredoc
 				}
 				// store <newline>
-				if w1, ok := l.word[len(l.word)-1].(*ast.Lit); ok {
+				if len(l.word) == 0 {
+					l.b.WriteByte('\n')
+					l.lit()
+				} else if w1, ok := l.word[len(l.word)-1].(*ast.Lit); ok {
 					w1.Value += "\n"
 					// concatenate
 					if len(l.word) > 1 {
